@@ -7,6 +7,7 @@
 #include <fcntl.h>
 #include <sys/stat.h>
 
+static char *replay_tape;   // text of a tape to replay / force
 run_ctx RC;
 result RES;
 uint64_t h_seqno;
@@ -219,7 +220,6 @@ static void knobs_from_seed(uint64_t seed, unsigned cfg) {
 }
 
 /* ---------- one run (in the child) ---------- */
-static char *replay_tape;   // text
 struct kov { char name[32]; uint64_t v; };
 static struct kov kovs[64]; static int nkov;
 
@@ -446,6 +446,62 @@ static int cmd_batch(int argc, char **argv) {
 	return 0;
 }
 
+/* ---------- fault enumeration: every (intercepted I/O call index, fault kind) of a fault-free run ---------- */
+static int cmd_enum(int argc, char **argv) {
+	// enum <prop> <cfg> <base_seed> <first_index> <stride> <count> <wall_budget_s> <outfile> <call-counter-index>
+	if (argc < 11) { fprintf(stderr, "usage: enum prop cfg base first stride count budget_s outfile counter\n"); return 2; }
+	PROP = find_prop(argv[2]);
+	unsigned cfg = parse_cfg(argv[3]);
+	uint64_t base = strtoull(argv[4], 0, 0), first = strtoull(argv[5], 0, 0), stride = strtoull(argv[6], 0, 0), count = strtoull(argv[7], 0, 0);
+	double budget = atof(argv[8]);
+	FILE *out = fopen(argv[9], "w"); if (!out) { perror(argv[9]); return 2; }
+	int cidx = atoi(argv[10]);
+	snprintf(errpath, sizeof errpath, "%s.err", argv[9]);
+	struct timespec t0; clock_gettime(CLOCK_MONOTONIC, &t0);
+	static const int kinds[] = { IOF_SHORT, IOF_EINTR, IOF_EAGAIN, IOF_EIO };
+	uint64_t programs = 0, pairs = 0, fired[IOF_N] = {0}, calls_total = 0;
+	char tape[64];
+	for (uint64_t i = 0; i < count; i++) {
+		struct timespec t1; clock_gettime(CLOCK_MONOTONIC, &t1);
+		if (budget > 0 && (double)(t1.tv_sec - t0.tv_sec) > budget) break;
+		uint64_t index = first + i * stride;
+		memset(&RC, 0, sizeof RC);
+		RC.seed = run_seed(base ^ 0x656e756d, PROP->id, cfg, index); RC.cfg = cfg;
+		replay_tape = NULL;
+		outcome o; fork_run(&o, 60);
+		if (!(o.kind == 0 && o.res.verdict == V_OK)) continue;   // only programs whose fault-free run is clean and complete
+		int ncalls = (int)o.res.counters[cidx];
+		if (ncalls <= 0) continue;
+		if (ncalls > 40) ncalls = 40;
+		programs++; calls_total += (uint64_t)ncalls;
+		for (int c = 0; c < ncalls; c++) for (unsigned k = 0; k < sizeof kinds / sizeof kinds[0]; k++) {
+			snprintf(tape, sizeof tape, "force\n-1 iofault %d %d\n", c, kinds[k]);
+			replay_tape = tape;
+			outcome f; fork_run(&f, 60);
+			pairs++;
+			if (f.have_res) for (int q = 0; q < IOF_N; q++) fired[q] += f.res.st.iofault[q];
+			const char *verdict = "ok"; char clause[256] = "-", msg[1400] = "", hh[17], th[17], sg[17];
+			hex16(hh, f.res.hist_hash); hex16(th, f.res.st.trace_hash); hex16(sg, f.res.st.sched_sig ^ ((uint64_t)c << 8) ^ kinds[k]);
+			if (f.kind == 0 && (f.res.verdict == V_OK || f.res.verdict == V_SKIP)) verdict = "ok";
+			else if (f.kind == 0 && f.res.verdict == V_VIOLATION) { verdict = "viol"; snprintf(clause, sizeof clause, "%s", f.res.clause); snprintf(msg, sizeof msg, "[fault %d at I/O call %d] %s", kinds[k], c, f.res.msg); }
+			else if (f.kind == 3) { verdict = "watchdog"; snprintf(clause, sizeof clause, "watchdog"); }
+			else { verdict = "crash"; char sig[1000]; crash_signature(sig, sizeof sig); snprintf(clause, sizeof clause, f.kind == 2 ? "asan" : f.kind == 1 ? "signal-%d" : "exit-%d", f.kind == 1 ? f.sig : f.code); snprintf(msg, sizeof msg, "[fault %d at I/O call %d] %s", kinds[k], c, sig); }
+			// index encodes program, call and kind so that the driver can rebuild the forced tape
+			fprintf(out, "R %lu %lu %s %s %s %s %s 1\n", (unsigned long)(index * 10000 + (uint64_t)c * 10 + k), (unsigned long)RC.seed, verdict, clause, hh, th, sg);
+			if (msg[0]) { for (char *p = msg; *p; p++) if (*p == '\n') *p = ' '; fprintf(out, "M %lu %s\n", (unsigned long)(index * 10000 + (uint64_t)c * 10 + k), msg); }
+		}
+		replay_tape = NULL;
+		if ((programs & 7) == 0) fflush(out);
+	}
+	struct timespec t2; clock_gettime(CLOCK_MONOTONIC, &t2);
+	fprintf(out, "T runs=%lu wall=%.3f enum_programs=%lu enum_pairs=%lu enum_io_calls=%lu", (unsigned long)pairs, (double)(t2.tv_sec - t0.tv_sec), (unsigned long)programs, (unsigned long)pairs, (unsigned long)calls_total);
+	static const char *iofn2[IOF_N] = { "none", "short", "eintr", "eagain", "eio", "enospc", "epipe", "eof" };
+	for (int k = 1; k < IOF_N; k++) fprintf(out, " io.%s=%lu", iofn2[k], (unsigned long)fired[k]);
+	fprintf(out, "\n");
+	fclose(out); unlink(errpath);
+	return 0;
+}
+
 /* ---------- replay ---------- */
 static char *read_file(const char *path) {
 	FILE *f = fopen(path, "r"); if (!f) { perror(path); exit(2); }
@@ -577,6 +633,7 @@ int main(int argc, char **argv) {
 	if (argc < 2) { fprintf(stderr, "usage: dsim batch|replay|one ...\n"); return 2; }
 	if (!strcmp(argv[1], "batch")) return cmd_batch(argc, argv);
 	if (!strcmp(argv[1], "replay")) return cmd_replay(argc, argv);
+	if (!strcmp(argv[1], "enum")) return cmd_enum(argc, argv);
 	if (!strcmp(argv[1], "one")) return cmd_one(argc, argv);
 	if (!strcmp(argv[1], "rule") && argc > 2) { PROP = find_prop(argv[2]); printf("%s\n", PROP->nontrivial_rule ? PROP->nontrivial_rule : ""); return 0; }
 	if (!strcmp(argv[1], "list")) { for (int i = 0; all_props[i]; i++) printf("%s\n", all_props[i]->id); return 0; }
